@@ -113,6 +113,14 @@ Theorem C12_cyclic_F_unique : forall kn F F', (2 <= length kn)%nat -> (forall i,
   forall m k, (m < length kn - 1)%nat -> (k < length kn - 1)%nat -> F m k == F' m k.
 Proof. exact cyclic_F_unique. Qed.
 
+(* non-vacuity: for the knots 0, 1, 3, 4 the matrix the model computes passes the predicate, and the knots increase strictly; likewise the periodic one *)
+Example C12_unique_example :
+  let kn := [0; 1; 3; 4] in
+  (match natural_F kn with Some F => natural_F_ok kn (mfun F) | None => false end) = true /\
+  (match cyclic_F kn with Some F => cyclic_F_ok kn (mfun F) | None => false end) = true /\ strictly_increasing kn = true.
+Proof. vm_compute. repeat split; reflexivity. Qed.
+
+Print Assumptions C12_unique_example.
 Print Assumptions C12_natural_F_unique.
 Print Assumptions C12_cyclic_F_unique.
 Print Assumptions C12_bs_nonnegative.
